@@ -4,7 +4,8 @@ threads, every atomic operation a scheduling point, spurious weak-CAS failures).
 import os, re, collections, concurrent.futures, subprocess
 import vlib
 
-HOOK_FLAGS = ['-DMI_VERIF_HOOKS="%s"' % os.path.join(vlib.HARN, "hooks.h"), "-DMI_PRIM_THREAD_ID=verif_tid", "-Wno-unused-value"]
+HOOK_FLAGS = ['-DMI_VERIF_HOOKS="%s"' % os.path.join(vlib.HARN, "hooks.h"), "-DMI_PRIM_THREAD_ID=verif_tid", "-Wno-unused-value",
+              "-Dclock_gettime=verif_clock_gettime", "-Dsyscall=verif_syscall"]   # determinism: virtual clock, fixed getrandom stream
 
 KINDS = {
     "C02": {"tfree": {"overlap", "content", "crash", "livelock", "fail"}, "exit": {"overlap", "content", "crash"}},
